@@ -106,11 +106,11 @@
         forall|x: int| 0 <= x < old(self).states@.len() && !(in_block(x, kb) && hfree(*helper, x)) ==>
             st_check(#[trigger] self.states@[x]) == st_check(old(self).states@[x]),
 //@}
-//@before 1 let idx = unused_base ^ u32::from(c);{
+//@loopbody 1{
     let ghost st_b = self.states@;
     proof { lemma_same_block(unused_base, c, h_lo(*helper), h_hi(*helper)); lemma_same_block(unused_base, c, kb * 256, kb * 256 + 256); }
 //@}
-//@after 1 if idx{
+//@loopend 1{
     proof {
         assert(c as int == it.index@);
         // guarded: if the slot of this label is free and did not get its CHECK, the loop invariant (not this hint) is what fails
